@@ -41,6 +41,8 @@ PRETEXTS = [
     ("# N|n: ", "# D|d: "),
     ("#\\n ", "#\\d "),
     ("# ^name$ ", "# ^desc$ "),
+    ("# Rule: ", "# RULE: "),
+    ("# rule: ", "# Rule: info: "),
 ]
 NAME_ALPHA = ["abcdefghijklmnopqrstuvwxyz0123456789", " ", "éüß€日本𝔘", ".-_@!?()[]{}*+=/", "ABCXYZ", "#:;,\"\\'|<>~"]
 
@@ -48,6 +50,18 @@ NAME_ALPHA = ["abcdefghijklmnopqrstuvwxyz0123456789", " ", "éüß€日本𝔘"
 def gen_label(f, label, minlen=1, maxlen=10):
     s = f.text(label, NAME_ALPHA, maxlen, minlen).strip()
     return s or "n"
+
+
+LONG_PARTS = ["lorem ipsum dolor sit amet", "  two  spaces ", "https://example.org/a/very/long/path/without/any/space/in/it/at/all/0123456789",
+              "日本語のとても長い説明文がここに入りますので折り返されるかもしれません", "hyphen-ated-words-all-the-way-down-the-line", "x", "é" * 30, "tab\there"]
+
+
+def gen_long_desc(f, label):
+    """Descriptions well beyond 72 characters (single line, not surrounded by whitespace)."""
+    n = 2 + f.int(label + ".n", 4)
+    parts = [LONG_PARTS[f.int(label + ".p", len(LONG_PARTS))] for _ in range(n)]
+    sep = [" ", "  ", "", "-"][f.int(label + ".sep", 4)]
+    return sep.join(parts).strip() or "d"
 
 
 class MF:
@@ -188,7 +202,7 @@ def run(ch, config, res):
                 content = fs.getfilter(n)
                 if content is None:
                     continue
-                desc = [None, gen_label(wl, "desc", 1, 14), ""][wl.weighted("hasdesc", [1, 4, 1])]
+                desc = [None, gen_label(wl, "desc", 1, 14), "", gen_long_desc(wl, "longdesc")][wl.weighted("hasdesc", [1, 4, 1, 2])]
                 if desc and (name_pre.strip() in desc or desc_pre.strip() in desc):
                     desc = desc.replace("#", "h")
                 rc = E.classify(lambda: fs.replacefilter(n, content, None, desc))
